@@ -178,7 +178,7 @@ func c07OpenOnce(r *Run, m *ServerModel) {
 		}
 		// (b) the store: find writes of .opened on the same base in the same root function.
 		found := false
-		for _, fa := range m.DB.Fields {
+		for _, fa := range m.fields() {
 			if fa.Root != b.Site.Root || fa.Key != "p9.fidRef.opened" || !fa.Write {
 				continue
 			}
@@ -218,7 +218,7 @@ func c07GuardedFields(r *Run, m *ServerModel) {
 	status := map[string]string{}
 	detail := map[string]string{}
 	poss := map[string]token.Pos{}
-	for _, fa := range m.DB.Fields {
+	for _, fa := range m.fields() {
 		if !guarded[fa.Key] || isClientSide(fa.Root) || fa.St.Dead {
 			continue
 		}
